@@ -53,7 +53,8 @@ package tx_pool
 //@   for C17 C09
 //@   nooverflow
 //@   ensures [exact] err == nil ==> r == ite(contractCreation, 53000, ite(legacy, 29000, 21000)) + 68 * nzCount(data, len(data)) + 4 * (len(data) - nzCount(data, len(data)))
-//@   ensures [errorOnlyOnOverflow] err != nil ==> ite(contractCreation, 53000, ite(legacy, 29000, 21000)) + 68 * nzCount(data, len(data)) + 4 * (len(data) - nzCount(data, len(data))) > 18446744073709551615
+// (the overflow error cannot occur for data that fits the address space, len(data) <= 2^48: a clause about
+// it would be vacuous, as the thorough tier's cover query showed; it is not claimed)
 //@   loop 1:
 //@     invariant 0 <= iter && iter <= len(data) && nz == nzCount(data, iter) && 0 <= nz && nz <= iter
 
